@@ -39,7 +39,7 @@ theorem okHist_snoc (P : State → Op → Bool) (ops : List Op) (op : Op) : ∀ 
   | cons o rest ih => intro s; simp only [List.cons_append, okHist, ih, Bool.and_assoc]; rfl
 
 /-- the lifecycle invariant holds after every good history -/
-theorem linv_of_good (ops : List Op) : ∀ s, LInv s → okHist good s ops = true → LInv (after s ops) := by
+theorem linv_of_good (ops : List Op) : ∀ s, LInv (· ≤ ·) s → okHist good s ops = true → LInv (· ≤ ·) (after s ops) := by
   induction ops with
   | nil => intro s hi _; exact hi
   | cons op rest ih =>
@@ -76,7 +76,7 @@ theorem terminal_absorbing_partial : TerminalAbsorbing good := by
   exact allowed_terminal ht (state_step_allowed_partial ops op h x hx x' hx')
 
 /-- one step, stated on the invariant: useful when the history is not at hand -/
-theorem state_step_allowed_of_inv (s : State) (hi : LInv s) (op : Op) (hwf : op.WF) (x : Job) (hx : x ∈ s.jobs) (x' : Job)
+theorem state_step_allowed_of_inv {R : Int → Int → Prop} (s : State) (hi : LInv R s) (op : Op) (hwf : op.WF) (x : Job) (hx : x ∈ s.jobs) (x' : Job)
     (hx' : findJob (step s op).1 x.batch x.id = some x') : allowed x.state x'.state = true :=
   allowed_step (stepDesc s hi.uniq hi.upd op) hwf hi x hx x' hx'
 
@@ -164,6 +164,65 @@ theorem pending_never_runs (s : State) (hr : Reachable s) (op : Op) (x : Job) (h
     (hp : x.state = .Pending) (x' : Job) (hx' : findJob (step s op).1 x.batch x.id = some x') :
     x'.state = .Pending ∨ x'.state = .Ready :=
   pending_step (stepDesc s (reachable_inv hr).1 (reachable_updOrdered hr) op) (reachable_inv hr).1 x hx hp x' hx'
+
+/-! ## each job is counted once in the tallies, however often or late completion is reported -/
+
+/-- **complete_counts_once.**  `mark_job_complete` on an existing job: if the job was Ready / Creating / Running and the
+procedure answers rc 0, then `n_completed` of the job's group and of each of its ancestors grows by exactly one
+(`tallyInc`: and exactly one of n_succeeded / n_failed / n_cancelled with it) and no other group row's tallies change;
+on an already terminal job (rc 0, "already complete"), with a stale attempt id (rc 2) or on a Pending job (rc 1) no
+group row changes at all. -/
+theorem complete_counts_once (s : State) (b j : Nat) (att inst : Option Nat) (ns : JState) (st e : Option Int) (r : String)
+    (d : Nat) (job : Job) (hj : findJob s b j = some job) :
+    (job.state.active = true → (complete s b j att inst ns st e r d).2 = .ok 0 →
+      (complete s b j att inst ns st e r d).1.groups.map tallyKey = s.groups.map (fun g => (g.batch, g.id,
+        if g.batch = b ∧ g.id ∈ ancestorsOf s b job.group then tallyAdd (tallyOf g) (tallyInc ns) else tallyOf g))) ∧
+    ((job.state.active = false ∨ (complete s b j att inst ns st e r d).2 ≠ .ok 0) →
+      (complete s b j att inst ns st e r d).1.groups = s.groups) :=
+  complete_tallies s b j att inst ns st e r d job hj
+
+/-- a terminal job stays in its state along every good continuation -/
+theorem terminal_stays (ops : List Op) : ∀ (s : State), LInv (· ≤ ·) s → okHist good s ops = true → ∀ x ∈ s.jobs,
+    x.state.terminal = true → ∃ x', findJob (after s ops) x.batch x.id = some x' ∧ x'.state = x.state := by
+  induction ops with
+  | nil => intro s hi _ x hx _; exact ⟨x, findJob_of_mem hi.uniq x hx, rfl⟩
+  | cons op rest ih =>
+    intro s hi h x hx ht
+    simp only [okHist, good, Bool.and_eq_true] at h
+    have hwf := wf_of_wfB h.1.1.1
+    have hi' := linv_step s hi op hwf h.1.1.2 h.1.2
+    obtain ⟨y, hy, -⟩ := findJob_shape (shape_step s op) x.batch x.id x (findJob_of_mem hi.uniq x hx)
+    have hst : y.state = x.state :=
+      allowed_terminal ht (allowed_step (stepDesc s hi.uniq hi.upd op) hwf hi x hx y hy)
+    obtain ⟨hym, hyb, hyid⟩ := mem_of_findJob hy
+    obtain ⟨x', hx', hs'⟩ := ih _ hi' (by simpa [good] using h.2) y hym (by rw [hst]; exact ht)
+    exact ⟨x', by rw [← hyb, ← hyid]; exact hx', hs'.trans hst⟩
+
+/-- **late or repeated completion reports change no tally**: once a job is terminal in a state reached by a good history,
+after any good continuation every further `mark_job_complete` for it (any attempt, any reported state) leaves every group
+row as it is. -/
+theorem late_completion_no_tally (ops1 ops2 : List Op) (h : okHist good init (ops1 ++ ops2) = true) (x : Job)
+    (hx : x ∈ (after init ops1).jobs) (ht : x.state.terminal = true) (att inst : Option Nat) (ns : JState)
+    (st e : Option Int) (r : String) (d : Nat) :
+    (complete (after init (ops1 ++ ops2)) x.batch x.id att inst ns st e r d).1.groups = (after init (ops1 ++ ops2)).groups := by
+  have hsplit : ∀ (l1 l2 : List Op) (s : State), okHist good s (l1 ++ l2) = true →
+      okHist good s l1 = true ∧ okHist good (after s l1) l2 = true := by
+    intro l1
+    induction l1 with
+    | nil => intro l2 s h; exact ⟨rfl, h⟩
+    | cons o l1 ih =>
+      intro l2 s h
+      simp only [List.cons_append, okHist, Bool.and_eq_true] at h ⊢
+      obtain ⟨k1, k2⟩ := ih l2 _ h.2
+      exact ⟨⟨h.1, k1⟩, k2⟩
+  obtain ⟨h1, h2⟩ := hsplit ops1 ops2 init h
+  have hi := linv_of_good ops1 init linv_init h1
+  obtain ⟨x', hx', hs'⟩ := terminal_stays ops2 _ hi h2 x hx ht
+  have hafter : after init (ops1 ++ ops2) = after (after init ops1) ops2 := by simp [after, List.foldl_append]
+  rw [hafter]
+  refine (complete_tallies _ x.batch x.id att inst ns st e r d x' hx').2 (Or.inl ?_)
+  rw [hs']
+  cases hst : x.state <;> simp_all [JState.terminal, JState.active]
 
 /-! ## non-vacuity of the hypotheses -/
 
